@@ -57,8 +57,9 @@ func (inst *InstAlloca) String() string {
 
 // Type returns the type of the instruction.
 func (inst *InstAlloca) Type() types.Type {
-	// Cache type if not present.
-	if inst.Typ == nil {
+	// Cache type if not present; recompute it if the address space was set
+	// after the type was cached (as done by ir.NewAlloca and the parser).
+	if inst.Typ == nil || inst.Typ.AddrSpace != inst.AddrSpace {
 		inst.Typ = types.NewPointer(inst.ElemType)
 		inst.Typ.AddrSpace = inst.AddrSpace
 	}
